@@ -14,6 +14,7 @@
      consecutive cur ranges fin
                        the byte ranges start at cur, each starts where the previous ends, lo <= hi, end at fin *)
 From TS Require Import model.Base model.Chunk model.Batch proofs.ChunkProofs proofs.BatchProofs.
+From TS Require Import gen.ChunkGen proofs.ChunkGenProofs.
 From Coq Require Import Permutation.
 
 (* ------------------------------------------------------------------ torch.chunk (validated external) *)
@@ -194,6 +195,25 @@ Theorem C16_write_then_read_plan : forall T (ws : list went) slabs pass reloc st
     /\ (forall b, In (e_path e, b) (exec_plan store (batch_read rreqs)) -> b = e_buf e).
 Proof. exact write_then_read_plan. Qed.
 Print Assumptions C16_write_then_read_plan.
+
+(* ------------------------------------------------------------------ tie to the source text *)
+(* gen/ChunkGen.v is regenerated from /repo on every run by translator/gen_chunk.py (fail closed) and holds the
+   size arithmetic of chunk_tensor (tensor_sz_bytes, n_chunks), subdivide_shard (slice_sz, chunk_length, n_chunks,
+   start, length), prepare_read_tiled (num_chunks, chunk_sz_bytes, both byte_range forms), the three conditions and
+   the byte_range of the grouping loop of batch_write_requests and the adjusted sub-range of batch_read_requests.
+   The hand models with those expressions replaced by the generated ones (chunk_tensor_g, ... in
+   proofs/ChunkGenProofs.v) are equal to the hand models the theorems above are about. *)
+Theorem C16_translated_arithmetic_agrees :
+  (forall shape dim esize csz, chunk_tensor_g shape dim esize csz = chunk_tensor shape dim esize csz)
+  /\ (forall offs sizes dim esize maxsz,
+        subdivide_shard_g offs sizes dim esize maxsz = subdivide_shard offs sizes dim esize maxsz)
+  /\ (forall shape flat esize limit base,
+        tile_g shape flat esize limit base = tile shape flat esize limit (match base with None => 0 | Some b => b end))
+  /\ (forall T st p is_tbs batchable numel esize,
+        bw_step_g T st (p, is_tbs, batchable, numel, esize) = bw_step T st (p, is_tbs && batchable, numel * esize))
+  /\ (forall rs loc, merge_location_g rs loc = merge_location rs loc).
+Proof. exact translated_arithmetic_agrees. Qed.
+Print Assumptions C16_translated_arithmetic_agrees.
 
 (* ------------------------------------------------------------------ non-vacuity *)
 (* 3x2 tensor of 4-byte elements (24 bytes): threshold 1, = size, size + 1, and one in between *)
